@@ -326,6 +326,10 @@ exists (not ownerless); none of the remaining events is a ResumeContract; at the
      | .hook _ _ _ (.resumeContract ..) _ => false
      | _ => true),
    w2.c.st.totalLst, w2.c.st.totalNative)) == some (0, 0, true, 2500, 3400)
+/-! the exception is real: the admin's ResumeContract (5, 0, 0) does leave 5 staked without LST behind them -/
+#guard (demoBoot.map fun w =>
+  let w1 := runEvs w [.exec demoAdmin [] (.resumeContract 5 0 0) {} (some 0)]
+  (w1.c.st.totalLst, w1.c.st.totalNative)) == some (0, 5)
 end DemoOwnerless
 
 /-- the statements of this file quantify over every message the staking contract accepts: the `ExecuteMsg` the source
